@@ -38,6 +38,12 @@ Definition exd_nest : program :=
   {| p_factors := [exd_f; exd_g];
      p_main := PNest exd_outer exd_inner [PKRow RAtMost 2 (TLevel 1 "y")] None |}.
 
+(** Merge([CrossBlock([f], [f], [AtMostKInARow(1, (f, "a"))]), CrossBlock([g], [g], [AtMostKInARow(1, (g, "x"))])],
+          [MinimumTrials(6)], REPEAT) *)
+Definition exd_merge2 : program :=
+  {| p_factors := [exd_f; exd_g];
+     p_main := PMerge [exd_cross; exd_inner] [PMinimumTrials 6] DRepeat None |}.
+
 (** kind, level and windows of the constraints of the semantic normal form *)
 Definition sem_constraints_of (p : program) : list (ckind * nat * list (nat * nat)) :=
   match doc_sem p with
